@@ -12,8 +12,9 @@ def normOf (ri : ReqIn) : Str := Spec.urlNorm ri.req.scheme ri.req.host ri.req.p
 def selCanon (field : Str) (v : Option Str) : Str :=
   Spec.selCanon Generated.byOrderInsensitive Generated.byCaseInsensitive Generated.byTimeInsensitive field v
 
+/-- the q-value classes, by canonical field name (request header maps are keyed canonically) -/
 def isQClass (field : Str) : Bool :=
-  ((Generated.byQValue ++ Generated.byEncoding).map String.toList).contains field
+  ((Generated.byQValue ++ Generated.byEncoding).map fun n => canonicalHeaderKey n.toList).contains field
 
 /-- members of all Vary field lines, canonical field names -/
 def varyMembers (hd : Header) : List Str := (Spec.listMembers hd sVary).map canonicalHeaderKey
@@ -59,7 +60,13 @@ def monC04 (h : Hist) : Option String :=
     let members := varyMembers storedHdr
     if members.contains ['*'] then some s!"exchange {ri.n}: a response with Vary: * was returned without validation"
     else
-      (members.find? fun f => !isQClass f && selCanon f (Spec.combined rm.req.header f) ≠ selCanon f (Spec.combined ri.req.header f)).map fun f =>
+      (members.find? fun f =>
+          if isQClass f then
+            -- plain token lists are judged by RFC 9110 alone; anything with weights or parameters is not judged
+            match Spec.qPlainCanon (Spec.combined rm.req.header f), Spec.qPlainCanon (Spec.combined ri.req.header f) with
+            | some a, some b => a ≠ b
+            | _, _ => false
+          else selCanon f (Spec.combined rm.req.header f) ≠ selCanon f (Spec.combined ri.req.header f)).map fun f =>
         s!"exchange {ri.n}: served the response selected by {shw f}={shw ((Spec.combined rm.req.header f).getD [])} (exchange {m}) to a request with {shw f}={shw ((Spec.combined ri.req.header f).getD [])}"
 
 /-! ### C07 -/
@@ -216,8 +223,13 @@ def monC09 (h : Hist) : Option String :=
       let s := storedOf e
       let members := varyMembers e.resp.header
       let tokenJ := tokenOf e.resp.body
-      if !isPlainGet rj || members.contains ['*'] || members.any isQClass then none else
-      if members.any (fun f => selCanon f (Spec.combined rj.req.header f) ≠ selCanon f (Spec.combined ri.req.header f)) then none else
+      if !isPlainGet rj || members.contains ['*'] then none else
+      -- q-value classes: only plain token lists are judged (Spec.qPlainCanon)
+      if members.any (fun f => isQClass f &&
+          ((Spec.qPlainCanon (Spec.combined rj.req.header f)).isNone || (Spec.qPlainCanon (Spec.combined ri.req.header f)).isNone)) then none else
+      if members.any (fun f =>
+          if isQClass f then Spec.qPlainCanon (Spec.combined rj.req.header f) ≠ Spec.qPlainCanon (Spec.combined ri.req.header f)
+          else selCanon f (Spec.combined rj.req.header f) ≠ selCanon f (Spec.combined ri.req.header f)) then none else
       if Spec.strictValidate Spec.rfc parse ri.req.header s x.res.t0 then none else
       if !(Spec.currentAge parse s x.res.t0 + nsPerSec < Spec.freshnessLifetime Spec.rfc parse s) then none else
       if x.fgCalls.isEmpty && x.fromStore && x.token == tokenJ then none
